@@ -243,19 +243,19 @@ impl ResourceChecker<VRes> for RC {
 
   fn stamp<RS: ResourceState<VRes>>(&self, resource: &VRes, state: &mut RS) -> Result<RStamp, CkErr> {
     let val = state.get_or_set_default_mut::<VState>().map.get(&resource.0).copied();
-    let stamp = observe_r(self.kind, val);
+    let stamp = stamp_r(self.kind, val);
     log(L::CStamp { chk: self.kind, faulty: self.faulty, r: resource.0, route: StampRoute::Direct, stamp });
     Ok(RStamp(stamp))
   }
 
   fn stamp_reader(&self, resource: &VRes, reader: &mut VReader) -> Result<RStamp, CkErr> {
-    let stamp = observe_r(self.kind, reader.peek());
+    let stamp = stamp_r(self.kind, reader.peek());
     log(L::CStamp { chk: self.kind, faulty: self.faulty, r: resource.0, route: StampRoute::Reader(reader.h), stamp });
     Ok(RStamp(stamp))
   }
 
   fn stamp_writer(&self, resource: &VRes, writer: VWriter<'_>) -> Result<RStamp, CkErr> {
-    let stamp = observe_r(self.kind, writer.get());
+    let stamp = stamp_r(self.kind, writer.get());
     log(L::CStamp { chk: self.kind, faulty: self.faulty, r: resource.0, route: StampRoute::Writer(writer.h), stamp });
     Ok(RStamp(stamp))
   }
@@ -266,10 +266,11 @@ impl ResourceChecker<VRes> for RC {
       return Err(CkErr(fault_message(resource.0, self.kind)));
     }
     let val = state.get_or_set_default_mut::<VState>().map.get(&resource.0).copied();
-    let now = observe_r(self.kind, val);
-    let verdict = if now == stamp.0 { Verdict::Consistent } else { Verdict::Inconsistent };
+    let now = stamp_r(self.kind, val);
+    let ok = rel_r(self.kind, stamp.0, now);
+    let verdict = if ok { Verdict::Consistent } else { Verdict::Inconsistent };
     log(L::CCheck { chk: self.kind, faulty: self.faulty, r: resource.0, stamp: stamp.0, verdict });
-    Ok(if now == stamp.0 { None } else { Some(RStamp(now)) })
+    Ok(if ok { None } else { Some(RStamp(now)) })
   }
 
   fn wrap_error(&self, error: Infallible) -> CkErr { match error {} }
@@ -295,14 +296,15 @@ impl Debug for OStamp {
 impl OutputChecker<Out> for OC {
   type Stamp = OStamp;
   fn stamp(&self, output: &Out) -> OStamp {
-    let stamp = observe_o(self.0, output);
+    let stamp = stamp_o(self.0, output);
     log(L::COStamp { chk: self.0, out: *output, stamp });
     OStamp(stamp)
   }
   fn check(&self, output: &Out, stamp: &OStamp) -> Option<impl Debug> {
-    let now = observe_o(self.0, output);
-    log(L::COCheck { chk: self.0, out: *output, stamp: stamp.0, inconsistent: now != stamp.0 });
-    if now != stamp.0 { Some(OStamp(now)) } else { None }
+    let now = stamp_o(self.0, output);
+    let ok = rel_o(self.0, stamp.0, now);
+    log(L::COCheck { chk: self.0, out: *output, stamp: stamp.0, inconsistent: !ok });
+    if !ok { Some(OStamp(now)) } else { None }
   }
 }
 
@@ -438,7 +440,7 @@ pub fn require_with<C: Context>(ctx: &mut C, dst: TaskId, chk: OChk) -> Out {
     OChk::ErrEquals => ctx.require(&Tk(dst), ErrEqualsChecker),
     OChk::ResultIs => ctx.require(&Tk(dst), ResultChecker),
     OChk::Always => ctx.require(&Tk(dst), AlwaysConsistent),
-    OChk::Parity | OChk::IEquals => ctx.require(&Tk(dst), OC(chk)),
+    OChk::Parity | OChk::IEquals | OChk::Near | OChk::AtLeast => ctx.require(&Tk(dst), OC(chk)),
   }
 }
 
@@ -510,7 +512,7 @@ pub fn ochk_text(kind: OChk) -> String {
     OChk::ErrEquals => "ErrEqualsChecker".into(),
     OChk::ResultIs => "ResultChecker".into(),
     OChk::Always => "AlwaysConsistent".into(),
-    OChk::Parity | OChk::IEquals => format!("{:?}", OC(kind)),
+    OChk::Parity | OChk::IEquals | OChk::Near | OChk::AtLeast => format!("{:?}", OC(kind)),
   }
 }
 /// Debug text of the stamp of output `o` under checker `kind` (as pie's built-in checkers produce it).
@@ -521,7 +523,7 @@ pub fn ostamp_text(kind: OChk, o: &Out) -> String {
     OChk::ErrEquals => format!("{:?}", o.as_ref().err().cloned()),
     OChk::ResultIs => format!("{:?}", o.is_err()),
     OChk::Always => "()".into(),
-    OChk::Parity | OChk::IEquals => format!("{:?}", OStamp(observe_o(kind, o))),
+    OChk::Parity | OChk::IEquals | OChk::Near | OChk::AtLeast => format!("{:?}", OStamp(stamp_o(kind, o))),
   }
 }
-pub fn rstamp_text(kind: RChk, v: Option<Val>) -> String { format!("{:?}", RStamp(observe_r(kind, v))) }
+pub fn rstamp_text(kind: RChk, v: Option<Val>) -> String { format!("{:?}", RStamp(stamp_r(kind, v))) }
